@@ -33,7 +33,8 @@ def _run(arg):
     for c in batch:
         script_fn(c, B, s)
     res = run_vdrive(bld, s.text(), work, timeout=opts.get("timeout", 600), asan=opts.get("asan", False),
-                     heap=opts.get("heap", False), mtx=opts.get("mtx", True), env_extra=opts.get("env"))
+                     heap=opts.get("heap", False), mtx=opts.get("mtx", True), env_extra=opts.get("env"),
+                     exe=opts.get("exe"), preload=opts.get("preload"))
     if res.timeout:
         B.F.inconclusive_case("batch %d timed out: %s" % (bi, getattr(res, "hang_info", "")[:400]))
         B.count("inconclusive", len(batch))
